@@ -4,7 +4,8 @@ Kernel-checked instances for the clauses about dates, forms and Keplerian maneuv
 
 History.  Until /repo aa1842c (time scales) and 1daca9c (OEM XML form) `mixed_scale_moves_instant` and `oem_xml_noncartesian_form`
 were counter-witnesses; the fixes are in, the regenerated flags flipped, and the same inputs are now regression witnesses
-(`…_ok`): if a fix is reverted the flags flip back and they stop building.  Still a counter-witness:
+(`…_ok`): if a fix is reverted the flags flip back and they stop building.  Likewise `xml_lagrange_centre_ok` (1063a10) and
+`lagrange_multiword_body_ok` (b15e5e0).  Still a counter-witness:
 `opm_keplerian_maneuver_lost` (open finding C13-opm-keplerian-maneuver), stated under the value its flag has now.
 -/
 namespace BeyondVerif.C13W
@@ -44,19 +45,33 @@ theorem opm_keplerian_maneuver_lost :
 theorem man_stop_dated_ok : manWindowBack ⟨1000000, 240000, .stop⟩ = some (760000, 1000000) ∧
     manWindowBack ⟨1000000, 240000, .median⟩ = some (880000, 1120000) := by decide
 
-/-- (open: C13-xml-lagrange-centre-name-glued) the XML writers print the centre of a Lagrange-point frame glued (`EARTHMOONL1`), from
-which the readers rebuild `Earthmoonl1`, not a frame; the KVN writers print `EARTH MOON L1` -/
-theorem xml_lagrange_centre_glued :
-    centerRead (centerWrite kvnCenterPats "EarthMoonL1".toList) = "EarthMoonL1".toList ∧
-    (xmlCenterPats = ["Barycenter"] → centerWrite xmlCenterPats "EarthMoonL1".toList = "EARTHMOONL1".toList ∧
-      centerRead (centerWrite xmlCenterPats "EarthMoonL1".toList) = "Earthmoonl1".toList) := by
+/-- (was open: C13-xml-lagrange-centre-name-glued, fixed 1063a10) the centre of a Lagrange-point frame is printed `EARTH MOON L1` by
+the XML writers as by the KVN writers, and read back as `EarthMoonL1` … -/
+theorem xml_lagrange_centre_ok :
+    centerWrite xmlCenterPats "EarthMoonL1".toList = "EARTH MOON L1".toList ∧
+    centerRead (centerWrite xmlCenterPats "EarthMoonL1".toList) = "EarthMoonL1".toList ∧
+    centerRead (centerWrite kvnCenterPats "EarthMoonL1".toList) = "EarthMoonL1".toList := by
   decide
 
-/-- (open: C13-lagrange-centre-of-multiword-body) `lagrange()` names the centre after the bodies' own names; a body name of two
-words (`Earth Barycenter`) puts a blank inside the centre name, which no CENTER_NAME text can bring back -/
+/-- … whereas a writer that only splits names containing `Barycenter` (the XML writer before 1063a10) prints it glued, and the readers
+rebuild `Earthmoonl1` -/
+theorem xml_lagrange_centre_glued :
+    centerWrite ["Barycenter"] "EarthMoonL1".toList = "EARTHMOONL1".toList ∧
+    centerRead (centerWrite ["Barycenter"] "EarthMoonL1".toList) = "Earthmoonl1".toList := by
+  decide
+
+/-- (was open: C13-lagrange-centre-of-multiword-body, fixed b15e5e0) the L2 point of Sun / Earth Barycenter is called
+`SunEarthBarycenterL2` and comes back in both encodings; no centre name has a blank any more … -/
+theorem lagrange_multiword_body_ok :
+    "SunEarthBarycenterL2" ∈ lagrangeNames ∧ lagrangeBlankNames = [] ∧
+    centerRead (centerWrite kvnCenterPats "SunEarthBarycenterL2".toList) = "SunEarthBarycenterL2".toList ∧
+    centerRead (centerWrite xmlCenterPats "SunEarthBarycenterL2".toList) = "SunEarthBarycenterL2".toList := by
+  decide
+
+/-- … whereas the name `lagrange()` built before b15e5e0, with a blank inside, cannot come back from any CENTER_NAME text -/
 theorem lagrange_multiword_body_name_lost :
     centerRead (centerWrite kvnCenterPats "SunEarth BarycenterL2".toList) = "SunEarthBarycenterL2".toList ∧
-    centerRead (centerWrite xmlCenterPats "SunEarth BarycenterL2".toList) ≠ "SunEarth BarycenterL2".toList := by
+    centerRead (centerWrite kvnCenterPats "SunEarth BarycenterL2".toList) ≠ "SunEarth BarycenterL2".toList := by
   decide
 
 /-- three-word centre of the JPL kernels, both encodings (regression instance for the word split) -/
